@@ -353,7 +353,39 @@ def selftest():
         raise core.BrokenCheck("oracle self-test failed")
 
 
+def replay(path):
+    """./vcheck C21 --replay <file>: re-evaluate the one case stored in a replay file; exit 1 if it still fails"""
+    import json
+    rec = json.load(open(path))
+    script = rec["replay"].get("script")
+    core.use_repo()
+    from mc.flo import real
+    from ioflo.base import needing
+    p = core.Part()
+    hit = [c for c in all_cases("thorough") if program(c) == script]
+    if rec["replay"].get("call"):
+        r = rec["replay"]
+        got = needing.Need.Check(r["state"], r["comparison"], r["goal"], r["tolerance"])
+        print("Need.Check(%r, %r, %r, %r) = %r, written comparison %r" % (r["state"], r["comparison"], r["goal"], r["tolerance"], got,
+                                                                       r["expected"]))
+        return 1 if got != r["expected"] else 0
+    if not hit:
+        print("replay: no case of the family has this script")
+        return 2
+    check_direct(needing, p, hit[0])
+    check_built(real, p, hit[0])
+    print(script)
+    for g, ex, what, rep in p.violations:
+        print("REPRODUCED %s|%s\n  %s" % (g, ex, what))
+    if not p.violations:
+        print("not reproduced: the condition now evaluates as written")
+    return 1 if p.violations else 0
+
+
 def run():
+    import os
+    if os.environ.get("VERIF_REPLAY"):
+        return replay(os.environ["VERIF_REPLAY"])
     selftest()
     ck = core.Check("C21", "exploration", META["technique"])
     cases = all_cases(core.TIER)
